@@ -10,12 +10,15 @@ SPEC = dict(
          'id generation), the TCP transport (connection, input buffer, request / response queues, round counters, read through the private struct), the environment (undelivered bytes, budget, flags), '
          'ages of all timers relative to the virtual clock (capped at timeout+1) and the shadow model. The invariant (exactly-once, matched completion, explained errors, cache-full exactness, '
          'pending count) is evaluated after every event and a drain phase from EVERY state checks that no accepted request is lost. states = distinct canonical states expanded, '
-         'transitions = events executed on the implementation, traces = histories replayed.',
-    bounds=dict(quick='8 configurations (cache size 1..3, per-round limit 1..2, timeouts 0/1/10); all histories up to depth 6 (5 for 4 configurations, -1 for cache size 3) over the 21-event alphabet, state-hash pruned',
-                thorough='depth 8 (7 for cache size 3)'),
+         'transitions = events executed on the implementation, traces = histories replayed. Part "conf": the same search over a second alphabet that adds configuration requests '
+         '(add configuration request, add, run, configuration payload, reply, error PDU, deliver all, peer close, clock; thorough: + deliver half, would-block): a configuration request '
+         'bears no id and is answered by an authentic configuration payload that reaches the client after it was accepted; it counts as an outstanding request for the cache-full rule and may '
+         'also be refused while another configuration request is outstanding.',
+    bounds=dict(quick='8 configurations (cache size 1..3, per-round limit 1..2, timeouts 0/1/10); all histories up to depth 6 (5 for 4 configurations, -1 for cache size 3) over the 21-event alphabet, state-hash pruned; conf part: 2 configurations, depth 6 over 9 events',
+                thorough='depth 8 (7 for cache size 3); conf part: 3 configurations, depth 8 over 11 events'),
     technique='explicit-state search (DFS with replay and canonical-state de-duplication) over the real client code under a harness-owned network and clock; shadow state machine as oracle',
     level_text='All event histories up to the depth bound are explored on the real asynchronous client with every socket answer and the clock owned by the harness; revisits of a canonical state are pruned. In every state the shadow machine checks exactly-once / matched completion, that every error has an actual cause, cache-full exactness and the pending count, and a drain from every state shows that nothing is lost. This is state exploration of the protocol core with 1-3 cache slots, the regime where exhaustive search is feasible.',
     level_note='Trusted: reference PDU model, simulated sockets, the canonical key (fields listed in state_key(); a field omitted there could only hide behaviours, never raise a false alarm). The HTTP transport (curl multi client) is explored by the second driver c13_async_http with its own 19-event alphabet (transfer completions: valid, reply for another outstanding request, bad MAC, status, error PDU, curl error, HTTP 500, empty, duplicated, truncated, garbage; 1-byte chunks; curl multi errors; clock) to depth 5 (thorough 7); the id-generation wrap is covered by the wrap part (264 / 300 sequential requests through one slot).',
-    require_outcomes=['add:accepted', 'add:cache-full', 'returned:response', 'returned:error:service-status', 'returned:error:receive-timeout', 'returned:error:connection', 'returned:error:bad-data', 'returned:push-config'],
+    require_outcomes=['add-conf:accepted', 'add-conf:refused:cache-full', 'add-conf:refused:one-at-a-time', 'returned:conf-response', 'add:accepted', 'add:cache-full', 'returned:response', 'returned:error:service-status', 'returned:error:receive-timeout', 'returned:error:connection', 'returned:error:bad-data', 'returned:push-config'],
     assumptions=['the canonical key distinguishes all states with different futures'],
 )
